@@ -31,6 +31,8 @@ import (
 	"crypto/sha512"
 	"encoding/binary"
 	"fmt"
+	"os"
+	"strings"
 	"sync"
 	"testing"
 	"time"
@@ -73,20 +75,25 @@ type c18WCase struct {
 	// is initialised lazily instead of "only during init" is initialised under
 	// concurrency.  Warm: expected results first, valid sr25519 signatures
 	// available as inputs.
-	Cold bool
-	G    [][]c18Op
+	Cold  bool
+	Shape string // generator shape (label only)
+	G     [][]c18Op
 }
 
-func c18GenOp(t *rapid.T) c18Op {
+var c18MixedKinds = []string{
+	"vcache", "vcache", "vcache", "vcache", "vexp", "vexp", "vexp", "batch", "batch", "sign", "sign", "verify", "verify",
+	"keygen", "x25519", "x25519base", "mulbase", "mulbase", "srsign", "srverify", "h2c", "merlin"}
+
+func c18GenOp(t *rapid.T, kinds []string, keys []int, badOneIn int) c18Op {
 	op := c18Op{}
-	op.Kind = rapid.SampledFrom([]string{
-		"vcache", "vcache", "vcache", "vcache", "vexp", "vexp", "vexp", "batch", "batch", "sign", "sign", "verify", "verify",
-		"keygen", "x25519", "x25519base", "mulbase", "mulbase", "srsign", "srverify", "h2c", "merlin"}).Draw(t, "kind")
-	op.K = rapid.SampledFrom([]int{0, 0, 1, 1, 2, 3, 4, 5, 6, 7}).Draw(t, "k")
+	op.Kind = rapid.SampledFrom(kinds).Draw(t, "kind")
+	op.K = rapid.SampledFrom(keys).Draw(t, "k")
 	op.M = rapid.IntRange(0, 3).Draw(t, "m")
 	op.Var = rapid.SampledFrom([]int{0, 0, 0, 1, 2}).Draw(t, "var")
 	op.VOpt = rapid.IntRange(0, 4).Draw(t, "vopt")
-	op.Bad = rapid.SampledFrom([]int{0, 0, 0, 0, 1, 2, 3}).Draw(t, "bad")
+	if rapid.IntRange(1, badOneIn).Draw(t, "isbad") == 1 {
+		op.Bad = rapid.IntRange(1, 3).Draw(t, "bad")
+	}
 	op.X = rapid.Uint64().Draw(t, "x")
 	op.Y = rapid.SampledFrom([]int{0, 0, 1, 2, 3}).Draw(t, "y")
 	if op.Y&2 != 0 {
@@ -95,26 +102,85 @@ func c18GenOp(t *rapid.T) c18Op {
 	return op
 }
 
+// Three shapes of workload:
+//   - mixed: everything, 2..16 goroutines x 1..6 ops;
+//   - cache-storm: 2..8 goroutines hammer the shared caching verifier (and the
+//     shared expanded keys) with mostly VALID signatures of a few keys, more
+//     keys than capacity: a verifier that hands out another key's expanded key
+//     turns true into false;
+//   - sign-storm: many goroutines sign / derive keys / multiply the basepoint
+//     (package-level tables, hashing, scalar recoding) with distinct inputs.
 func c18GenWorkload(t *rapid.T) c18WCase {
 	c := c18WCase{}
 	c.Procs = rapid.SampledFrom([]int{1, 2, 4, 4, 16, 16}).Draw(t, "procs")
 	c.CacheCap = rapid.IntRange(1, 3).Draw(t, "cachecap")
 	c.Seed = rapid.Uint64().Draw(t, "seed")
 	c.Cold = rapid.IntRange(0, 2).Draw(t, "cold") == 0
-	ng := rapid.SampledFrom([]int{2, 2, 3, 3, 4, 4, 5, 6, 8, 10, 12, 16}).Draw(t, "goroutines")
-	maxOps := 6
-	if ng > 8 {
-		maxOps = 4
+	shape := rapid.SampledFrom([]string{"mixed", "mixed", "mixed", "mixed", "mixed", "cache-storm", "cache-storm", "sign-storm"}).Draw(t, "shape")
+	c.Shape = shape
+	var (
+		ng, minOps, maxOps int
+		kinds              []string
+		keys               []int
+		badOneIn           int
+	)
+	switch shape {
+	case "mixed":
+		ng = rapid.SampledFrom([]int{2, 2, 3, 3, 4, 4, 5, 6, 8, 10, 12, 16}).Draw(t, "goroutines")
+		minOps, maxOps = 1, 6
+		if ng > 8 {
+			maxOps = 4
+		}
+		kinds, keys, badOneIn = c18MixedKinds, []int{0, 0, 1, 1, 2, 3, 4, 5, 6, 7}, 3
+	case "cache-storm":
+		ng = rapid.SampledFrom([]int{2, 3, 4, 4, 6, 8}).Draw(t, "goroutines")
+		minOps, maxOps = 4, 10
+		kinds = []string{"vcache", "vcache", "vcache", "vcache", "vcache", "vcache", "batch", "vexp"}
+		nk := rapid.IntRange(2, 4).Draw(t, "nkeys")
+		first := rapid.IntRange(0, 2).Draw(t, "firstkey")
+		for i := 0; i < nk; i++ {
+			keys = append(keys, first+i)
+		}
+		badOneIn = 8
+	case "sign-storm":
+		ng = rapid.SampledFrom([]int{4, 8, 12, 16}).Draw(t, "goroutines")
+		minOps, maxOps = 2, 5
+		kinds, keys, badOneIn = []string{"sign", "sign", "sign", "keygen", "mulbase", "x25519base", "srsign", "verify"}, []int{0, 1, 2, 3, 4, 5}, 6
 	}
 	for g := 0; g < ng; g++ {
-		n := rapid.IntRange(1, maxOps).Draw(t, "nops")
+		n := rapid.IntRange(minOps, maxOps).Draw(t, "nops")
 		var ops []c18Op
 		for i := 0; i < n; i++ {
-			ops = append(ops, c18GenOp(t))
+			ops = append(ops, c18GenOp(t, kinds, keys, badOneIn))
 		}
 		c.G = append(c.G, ops)
 	}
 	return c
+}
+
+// c18WReps is the number of repetitions of a case: an op budget divided by the
+// size of the case (race-instrumented code is ~10x slower, so the budget is
+// smaller there); a replay repeats much more.
+func c18WReps(c c18WCase) int {
+	n := 0
+	for _, g := range c.G {
+		n += len(g)
+	}
+	if n == 0 {
+		n = 1
+	}
+	budget, lo, hi := 250, 3, 30
+	if !strings.HasPrefix(os.Getenv("VERIF_CONFIG"), "race") {
+		budget, lo, hi = 2500, 10, 300
+	}
+	reps := budget / n
+	if reps < lo {
+		reps = lo
+	}
+	if reps > hi {
+		reps = hi
+	}
+	return cache.C18Reps(reps, 20*reps)
 }
 
 func c18WValid(c c18WCase) bool {
@@ -218,7 +284,7 @@ func c18CheckWorkload(c c18WCase) h.Result {
 	if !c18WValid(c) {
 		return r.Class("invalid-case").Result()
 	}
-	reps := cache.C18Reps(3, 200)
+	reps := c18WReps(c)
 	rep, viol := cache.C18Spawn("workload", "TestC18ChildWorkload", c, c.Procs, reps)
 	ng := len(c.G)
 	switch {
@@ -231,7 +297,7 @@ func c18CheckWorkload(c c18WCase) h.Result {
 	default:
 		r.Class("goroutines:9-16")
 	}
-	r.Class(fmt.Sprintf("procs:%d", c.Procs))
+	r.Class(fmt.Sprintf("procs:%d", c.Procs), "shape:"+c.Shape)
 	if c.Cold {
 		r.Class("cold(first library calls are concurrent)")
 	} else {
